@@ -107,6 +107,30 @@ class C19(Prop):
     def nontrivial(self, case, impl):
         return " L" in impl or "|L" in impl
 
+    def scenarios(self, rng, tier):
+        """A query handed over as SEVERAL arguments (`any 2 m + 3 m`, the way a shell passes it)
+        prints what the same query prints as one argument, in both modes."""
+        from . import mixgen as M
+        qs = ["2 m + 3 m", "1 / 3", "10 km to mi", "1 + 2 3 + 4", "5 - -2", "mass earth * 2", "3 kg m / s^2", "round(10 / 3, 2) m",
+              "1 / 0 + 1", "2 ^ 10", "50 % * 4", "20 °C to K", "1 m + 1 s", "( 1 + 2 ) * 3", "- 5", "speed of light to km/s"]
+        for _ in range(60 if tier == "quick" else 1500):
+            qs.append(M.canonical(M.expr(rng, rng.range(0, 2))))
+        lines = []
+        for q in qs:
+            for mode in ("exact", "decimal"):
+                lines.append(f"cli {C.hexs(q)} {mode}")
+                lines.append(f"clisplit {C.hexs(q)} {mode}")
+        rc, out, err = C.run_lines(C.harness_bin(False), lines, watchdog=self.watchdog_s)
+        fails, n, nontriv = [], 0, 0
+        for i in range(0, len(out) - 1, 2):
+            q = qs[i // 4]
+            n += 1
+            if out[i] != out[i + 1]:
+                fails.append((f"split-args:{q}", q, f"`any {q}` (several arguments) prints {out[i + 1][:120]}, `any '{q}'` (one argument) prints {out[i][:120]}"))
+            elif " L" in out[i] or "|L" in out[i]:
+                nontriv += 1
+        return {"evaluations": n, "nontrivial": nontriv, "spec_fail": fails[:10], "dist": {"split-argument-runs": n}}
+
     def prepare(self, cases, impl_lines):
         """The direct oracle: what the LIBRARY computed for each query (harness `query`,
         in-process), rendered by the model of the printing loop (`render`). A difference
@@ -134,6 +158,25 @@ class C19(Prop):
         exp = self._expected.get(id(case))
         if exp is None:
             return None
+        # where the diagnostic points: the library's range start, as line and column (counted in
+        # characters) of the query text the program was given
+        text = case.text if isinstance(case.text, str) else ""
+        try:
+            src = bytes.fromhex(case.line.split(" ")[1]) if case.line.split(" ")[1] != "-" else b""
+        except ValueError:
+            src = text.encode()
+        got_pos = [it.split(":", 1)[1] for it in impl.split(" ")[1].split("|") if it.startswith("D") and ":" in it]
+        want_pos = []
+        for it in exp[0].split(" ")[1].split("|"):
+            if it.startswith("D") and ":" in it:
+                try:
+                    pre = src[: int(it.split(":", 1)[1])].decode("utf-8")
+                    want_pos.append(f"{pre.count(chr(10)) + 1}:{len(pre) - (pre.rfind(chr(10)) + 1) + 1}")
+                except (ValueError, UnicodeDecodeError):
+                    want_pos.append("?")
+        if len(got_pos) == len(want_pos) and "?" not in want_pos and got_pos != want_pos and self.observable(impl) == self.observable(exp[0]):
+            return (f"the diagnostics of `{text}` point at line:column {got_pos}, but the library reported errors starting at {want_pos} "
+                    f"({exp[1][:100]})")
         if self.observable(impl) != self.observable(exp[0]):
             def show(line):
                 return [C.unhex(it[1:]) if it.startswith("L") else it for it in line.split(" ")[1].split("|")]
@@ -194,6 +237,10 @@ class C19(Prop):
                     continue   # read as decilitre: the recorded logos finding of C05, not a printing matter
                 for t in (f"3 {pf}{u}", f"1 / 2 {pf}{u}"):
                     out.append(Case(f"cli {C.hexs(t)} exact", "prefix-display", t))
+        # diagnostics must point INTO the query as it was given, blanks at its start included
+        for pad in ("", " ", "   ", "\t", "        ", " \t "):
+            for t in ("(2) (1/0) (3)", "1 m + 1 s", "(1) round(1,2,3)", "(1) 2 m^2 to s", "1 / 0", "nosuchfact xyz", "(7) (1 m to s) (8) (2 / 0)"):
+                out.append(Case(f"cli {C.hexs(pad + t + pad)} decimal", "padded-errors", pad + t + pad))
         # orders of magnitude in the default decimal format (the printed exponent is a digit count)
         for k in list(range(13, 720, 11 if tier == "quick" else 1)) + [205, 206, 264, 351, 410, 469, 497]:
             for t in (f"10^{k}", f"1.002 * 10^{k}", f"1 / 10^{k}", f"3 m * 10^{k}"):
